@@ -22,6 +22,8 @@ func main() {
 		runL4(os.Args[2:])
 	case "l5":
 		runL5(os.Args[2:])
+	case "zoo":
+		runZoo(os.Args[2:])
 	default:
 		fmt.Fprintln(os.Stderr, "unknown layer", os.Args[1])
 		os.Exit(3)
